@@ -307,9 +307,11 @@ class ofp_flow_mod_table_id (of.ofp_flow_mod):
   def unpack (self, raw, offset=0):
     return super(ofp_flow_mod_table_id, self).unpack(raw, offset)
 
-  @splice_table_id
   def __eq__ (self, other):
-    return super(ofp_flow_mod_table_id, self).__eq__(other)
+    # (No splicing here: it would change self.command but not
+    #  other.command, so nothing with a table_id would ever be equal.)
+    if not super(ofp_flow_mod_table_id, self).__eq__(other): return False
+    return self.table_id == other.table_id
 
   def show (self, prefix=''):
     outstr = ''
